@@ -416,3 +416,154 @@ def try_const(node):
         return True, const_value(node)
     except (ValueError, TypeError):
         return False, None
+
+
+# ---------------------------------------------------------------------------
+# source-level inlining of procedure-like helpers (for CFG / statement-order rules)
+
+class _Renamer(ast.NodeTransformer):
+    def __init__(self, mapping):
+        self.mapping = mapping
+
+    def visit_Name(self, n):
+        if n.id in self.mapping:
+            return ast.copy_location(ast.Name(id=self.mapping[n.id], ctx=n.ctx), n)
+        return n
+
+    def visit_FunctionDef(self, n):
+        return n        # do not descend into nested definitions
+
+    visit_Lambda = visit_FunctionDef
+
+
+def _local_names(fnode):
+    names = set()
+    for n in own_nodes(fnode):
+        if isinstance(n, ast.Name) and isinstance(n.ctx, (ast.Store, ast.Del)):
+            names.add(n.id)
+        elif isinstance(n, (ast.Import, ast.ImportFrom)):
+            for a in n.names:
+                names.add((a.asname or a.name).split(".")[0])
+        elif isinstance(n, ast.ExceptHandler) and n.name:
+            names.add(n.name)
+    a = fnode.args
+    for x in a.posonlyargs + a.args + a.kwonlyargs:
+        names.add(x.arg)
+    return names
+
+
+def _inlinable_body(g, as_value):
+    """The statements of helper *g* if it can be spliced in place of a call statement: no generator, no decorator,
+    no *args/**kwargs, and `return` only as the very last statement (with a value iff the call's value is used)."""
+    fn = g.node
+    if fn.decorator_list or fn.args.vararg or fn.args.kwarg:
+        return None
+    body = list(fn.body)
+    if body and isinstance(body[0], ast.Expr) and isinstance(body[0].value, ast.Constant) and isinstance(body[0].value.value, str):
+        body = body[1:]
+    rets = [n for n in own_nodes(fn) if isinstance(n, ast.Return)]
+    if any(isinstance(n, (ast.Yield, ast.YieldFrom, ast.Global, ast.Nonlocal)) for n in own_nodes(fn)):
+        return None
+    if as_value:
+        if len(rets) != 1 or not body or body[-1] is not rets[0] or rets[0].value is None:
+            return None
+    else:
+        if len(rets) > 1 or (rets and (not body or body[-1] is not rets[0] or rets[0].value is not None)):
+            return None
+    return body
+
+
+def inline_helpers(project, func, resolve, depth=2):
+    """A copy of *func* in which calls of project helpers used as statements (`helper(a, b)`, `self.helper(a)`,
+    `x = helper(a)`) are replaced by the helper's body, parameters and locals renamed apart.  *resolve(func, call)*
+    maps a call to the project Func it invokes (or None).  Statement order, conditions and line numbers of the
+    helper's statements are preserved, so CFG-based rules see one function."""
+    import copy
+    counter = [0]
+
+    def splice(stmts, owner, d):
+        out = []
+        for s in stmts:
+            call, target = None, None
+            if isinstance(s, ast.Expr) and isinstance(s.value, ast.Call):
+                call = s.value
+            elif isinstance(s, ast.Assign) and len(s.targets) == 1 and isinstance(s.value, ast.Call):
+                call, target = s.value, s.targets[0]
+            g = resolve(owner, call) if call is not None else None
+            body = _inlinable_body(g, target is not None) if (g is not None and g is not func and d > 0 and getattr(g.module, "kind", "py") == "py") else None
+            if body is not None and not any(isinstance(a, ast.Starred) for a in call.args) and not any(k.arg is None for k in call.keywords):
+                params = [x.arg for x in g.node.args.posonlyargs + g.node.args.args]
+                args = list(call.args)
+                bound = {}
+                is_method = g.cls is not None and params and params[0] in ("self", "cls") and isinstance(call.func, ast.Attribute)
+                if is_method:
+                    bound[params[0]] = call.func.value
+                    params_rest = params[1:]
+                else:
+                    params_rest = params
+                if len(args) <= len(params_rest):
+                    for p, a in zip(params_rest, args):
+                        bound[p] = a
+                    ok = True
+                    for k in call.keywords:
+                        if k.arg in bound or (k.arg not in params_rest and k.arg not in [x.arg for x in g.node.args.kwonlyargs]):
+                            ok = False
+                        bound[k.arg] = k.value
+                    defaults = dict(zip(params[len(params) - len(g.node.args.defaults):], g.node.args.defaults))
+                    for x, dflt in zip(g.node.args.kwonlyargs, g.node.args.kw_defaults):
+                        if dflt is not None:
+                            defaults[x.arg] = dflt
+                    for p in params_rest + [x.arg for x in g.node.args.kwonlyargs]:
+                        if p not in bound:
+                            if p in defaults:
+                                bound[p] = defaults[p]
+                            else:
+                                ok = False
+                    if ok:
+                        counter[0] += 1
+                        pre = "_%s_%d__" % (g.node.name.strip("_"), counter[0])
+                        mapping = {nm: pre + nm for nm in _local_names(g.node)}
+                        if is_method and isinstance(bound[params[0]], ast.Name):
+                            mapping[params[0]] = bound[params[0]].id      # `self` stays `self`
+                        new = []
+                        for p, a in bound.items():
+                            if p in mapping and mapping[p] == getattr(a, "id", None):
+                                continue
+                            asg = ast.Assign(targets=[ast.Name(id=mapping.get(p, pre + p), ctx=ast.Store())], value=copy.deepcopy(a))
+                            ast.copy_location(asg, s)
+                            ast.fix_missing_locations(asg)
+                            new.append(asg)
+                        ren = _Renamer(mapping)
+                        hb = [ren.visit(copy.deepcopy(x)) for x in body]
+                        if hb and isinstance(hb[-1], ast.Return):
+                            last = hb.pop()
+                            if target is not None:
+                                asg = ast.Assign(targets=[copy.deepcopy(target)], value=last.value)
+                                ast.copy_location(asg, last)
+                                ast.fix_missing_locations(asg)
+                                hb.append(asg)
+                        hb = splice(hb, g, d - 1)
+                        out.extend(new + hb)
+                        continue
+            # recurse into compound statements
+            s2 = copy.copy(s)
+            for fld in ("body", "orelse", "finalbody"):
+                if hasattr(s2, fld) and isinstance(getattr(s2, fld), list) and not isinstance(s2, (ast.FunctionDef, ast.AsyncFunctionDef, ast.ClassDef)):
+                    setattr(s2, fld, splice(getattr(s2, fld), owner, d))
+            if isinstance(s2, ast.Try):
+                hs = []
+                for h in s2.handlers:
+                    h2 = copy.copy(h)
+                    h2.body = splice(h.body, owner, d)
+                    hs.append(h2)
+                s2.handlers = hs
+            out.append(s2)
+        return out
+
+    new_node = copy.copy(func.node)
+    new_node.body = splice(list(func.node.body), func, depth)
+    if counter[0] == 0:
+        return func
+    clone = Func(func.qual, new_node, func.module, func.cls, func.parent)
+    clone.inlined = counter[0]
+    return clone
